@@ -12,7 +12,7 @@ META = {
              'descriptor'),
     'required_obs': {'quick': ['frame-checked', 'c08-cast', 'c08-width1-2d', 'c08-element-limit>dimension',
                                'c08-user-dimension', 'c08-user-el-larger', 'c08-inconsistent-tried', 'c08-multi-frame',
-                               'c08-shared-channel', 'c08-channel-in-no-frame', 'c08-struct-aligned', 'c08-struct-view']},
+                               'c08-shared-channel', 'c08-channel-in-no-frame', 'c08-struct-aligned', 'c08-struct-view', 'c08-dataset-name-overlap']},
     'assumptions': ['an inconsistent user-supplied dimension / element limit may be rejected; only successful writes '
                     'are constrained'],
 }
@@ -24,6 +24,8 @@ def cases(tier, seed):
         yield {'stratum': 'random', 'index': k, 'kind': 'random'}
     for k in range(100 if tier == 'quick' else 3000):
         yield {'stratum': 'struct-fastpath', 'index': k, 'kind': 'fastpath'}
+    for k in range(60 if tier == 'quick' else 1500):
+        yield {'stratum': 'dataset-name-overlap', 'index': k, 'kind': 'overlap'}
     i = 0
     for dt in gen.DTYPES:
         for cast in gen.DTYPES:
@@ -51,6 +53,29 @@ def run_case(case):
         sp['write'] = {'source': r.choice(['inline', 'dict', 'struct', 'hdf5']), 'output_chunk_size': 2 ** 16}
         classes = ['cast']
         inconsistent = False
+    elif case['kind'] == 'overlap':
+        # channel X's NAME equals channel Y's DATASET name: per-channel settings (casts) must not travel by name
+        n = r.choice([3, 6])
+        sp = gen.base_spec(r.choice([128, 8192]))
+        sp['ops'].append(gen.origin_op())
+        dA, dB = r.choice(['float64', 'int32', 'uint16']), r.choice(['float64', 'float32', 'uint8'])
+        cast = r.choice([d for d in ('float32', 'float64', 'int32', 'uint16') if d not in (dA, dB)] or ['float32'])
+        mode = r.choice(['swapped', 'same-column-twice'])
+        if mode == 'swapped':
+            # column 'A' is exposed as channel 'B' (cast), column 'B' as channel 'A'
+            sp['ops'].append(gen.channel_op('B', gen.dtstr(dA, '<'), (n,), fill={'kind': 'safe', 'tag': 1}, dataset_name='A',
+                                            cast_dtype={'$dtype': cast, 'as': 'type'}))
+            sp['ops'].append(gen.channel_op('A', gen.dtstr(dB, '<'), (n, 2), fill={'kind': 'safe', 'tag': 2}, dataset_name='B'))
+        else:
+            sp['ops'].append(gen.channel_op('RPM_RAW', gen.dtstr(dA, '<'), (n,), fill={'kind': 'safe', 'tag': 1}, dataset_name='RPM'))
+            sp['ops'].append(gen.channel_op('RPM', gen.dtstr(dA, '<'), (n,), fill={'kind': 'safe', 'tag': 3},
+                                            cast_dtype={'$dtype': cast, 'as': 'type'}))
+        sp['ops'].append(gen.frame_op('F', [1, 2]))
+        # (the second channel of 'same-column-twice' gets an automatic dataset name, so its data go in inline)
+        sp['write'] = {'source': r.choice(['inline', 'dict', 'struct']) if mode == 'swapped' else 'inline', 'output_chunk_size': 2 ** 16}
+        classes = ['overlap:' + mode]
+        inconsistent = False
+        bump('c08-dataset-name-overlap')
     elif case['kind'] == 'fastpath':
         sp = gen.fastpath_spec(r)
         classes = ['struct-' + (sp['write'].get('struct_variant') or 'packed')]
